@@ -167,3 +167,12 @@ package dutydb
 //@ ensures ncalls(db.resolveContribQueriesUnsafe) == 1
 // registration is Await's only critical section: a waiter that gives up (cancel, shutdown) leaves the pending lists alone
 //@ ensures ncalls(db.mu.Lock) == 1
+
+// The validator key for an attestation is the one recorded under exactly (slot, committee index, validator index).
+//@ func (db *MemDB) PubKeyByAttestation
+//@ props C06
+//@ atomic
+//@ assigns nothing
+//@ ensures r1 == nil <==> has(db.attPubKeys, pkKey{Slot: slot, CommIdx: commIdx, ValIdx: valIdx})
+//@ ensures r1 == nil ==> r0 == *db.attPubKeys[pkKey{Slot: slot, CommIdx: commIdx, ValIdx: valIdx}]
+
